@@ -339,6 +339,7 @@ class Verifier:
                 else:
                     w = True
                 if self.definitional(ip, cl, fr):
+                    ctx.always_deps.append((c.qual, cl.name))
                     continue
                 if "spec.entropy_calls" in cl.expr or "spec.entropy_only_via" in cl.expr:
                     continue      # statements about the execution log of the callee itself, not about state
@@ -493,7 +494,7 @@ class Verifier:
             status = "discharged"
             uc = s.unsat_core()
             ids = {u.get_id() for u in uc}
-            core = [info for l, info in ctx.labels if l.get_id() in ids]
+            core = [info for l, info in ctx.labels if l.get_id() in ids] + list(ctx.always_deps)
         elif r == z3.sat:
             status = "refuted"
             model = self.extract_model(ip, s.model())
@@ -818,6 +819,7 @@ class Verifier:
     def check_exit(self, ip, rep, c, finfo, pre_env, outcome):
         ctx = ip.ctx
         fr = Frame(None, finfo.module, dict(pre_env))
+        fr.env.setdefault("entropy_pos", 0)
         kind = outcome[0]
 
         def ev(astnode, old=False):
